@@ -10,6 +10,7 @@ def register(db):
     collab.declare(db)
     register_wild(db)
     register_union_bind(db)
+    register_pop_wrapper(db)
     P = ["C15"]
     assume_method(db, "NodeParserObj", "start", raises=["ParserError", "ConverterError", "XmlContextError"])
     assume_method(db, "NodeParserObj", "end", returns="bool", raises=["ParserError", "ConverterError", "XmlContextError"])
@@ -123,4 +124,33 @@ def register_wild(db):
         raises={"ConverterError": True, "KeyError": True},
         properties=["C15", "C11"],
         note="KeyError is an artefact of the abstract params dict (the read is guarded by a membership test)",
+    ))
+
+
+def register_pop_wrapper(db):
+    """ElementNode.pop_wrapper: looking up the wrapper of the next child never fails - a child of a name whose
+    recorded wrappers are used up (a misplaced extra item) has no wrapper."""
+    from pyvc.contracts import pure_result
+
+    EL = f"{NODES}.element:ElementNode"
+    assume_method(db, "WrapperMap", "get", returns="u:StrList|None", pure=True)
+
+    def pop(ex, st, recv, args, kwargs):
+        """list.pop(0): IndexError on an empty list (an empty list is falsy), else the first name"""
+        for st1, nonempty in ex.branch(st, ex.truthy(st, recv)):
+            if nonempty:
+                yield st1, pure_result(ex, st1, "StrList.first", "str", [recv])
+            else:
+                yield ex.raise_(st1, "IndexError")
+
+    assume_method(db, "StrList", "pop", custom=pop, mutates=True)
+
+    def node(mk, base):
+        return mk.obj(EL, {"wrappers": "opaque:WrapperMap"})
+
+    db.add(Contract(
+        f"{EL}.pop_wrapper",
+        params={"self": node, "qname": "str"},
+        ensures=[], raises={}, returns="str|None", properties=["C15", "C10"],
+        note="the recorded wrapper names per child name are lists: popping from an exhausted one must not happen",
     ))
